@@ -533,6 +533,27 @@ def template_programs(rng):
         ss = [putc(call('at', [strlit('$s'), num(i)])) for i in (0, 1, nw - 1)]
         ss.append(exit_(bi('-', call('at', [strlit('$s'), num(0)]), call('at', [strlit('$s'), num(nw - 2)]))))
         out.append(('string:long:%d' % n, std_program(seq(ss), strings={'$s': txt})))
+    # a plain flag guarding a subscript that is out of range when the flag says so (short-circuit operators whose LEFT operand is a leaf: a
+    # compiler that reorders "commutative" operands evaluates the element; the only array sits at the very top of memory)
+    for nm, mk in (('and', lambda f, e: bi('and', f, e)), ('or', lambda f, e: un('~', bi('or', f, e)))):
+        for fv in (0, 1):
+            guard_on = (nm == 'and' and fv == 0) or (nm == 'or' and fv == 1)
+            i = 4 if guard_on else 2
+            body = [ass(idx('tb', num(k)), num(10 + k)) for k in range(4)] + [ass(var('i'), num(i)), ass(var('fl'), num(fv)),
+                    iff(mk(var('fl'), bi('=', idx('tb', var('i')), num(12))), putc(num(89)), putc(num(78))),
+                    iff(mk(num(fv), bi('=', idx('tb', var('i')), num(12))), putc(num(89)), putc(num(78))), exit_(var('i'))]
+            out.append(('guardflag:%s:%d' % (nm, fv), program(['i', 'fl'], {'tb': 4}, {'main': proc(False, [], [], seq(body))}, {}, {}, ['main'])))
+    # a store into frame slot k directly followed by a load of element k of a global array (a peephole that takes the pair for "store then
+    # load of the same slot" leaves the stored value in areg: here a value that, used as a subscript, leaves the memory)
+    for nloc in (1, 2, 3, 4):
+        for c in range(0, 6):
+            locs = ['l%d' % j for j in range(nloc)]
+            stm = [ass(idx('offs', num(k)), num(k % 3)) for k in range(6)]
+            for j in range(nloc):
+                stm += [ass(var('l%d' % j), num(70000 + j)), ass(idx('buf', idx('offs', num(c))), bi('+', var('l%d' % j), num(1)))]
+            stm += [putc(bi('+', num(48), idx('offs', num(c)))), exit_(bi('-', idx('buf', idx('offs', num(c))), num(70000)))]
+            pp = proc(False, [], locs, seq(stm))
+            out.append(('slotidx:%d:%d' % (nloc, c), program([], {'buf': 3, 'offs': 6}, {'main': proc(False, [], [], callst(call('pp', []))), 'pp': pp}, {}, {}, ['main', 'pp'])))
     # string literals and character constants with bytes above 127 (Latin-1 / UTF-8 text): a byte is a byte, 0..255
     for nm, txt in (('utf8', [0xC3, 0xA9, 0x7A]), ('first', [0x80, 0x41, 0x42, 0x43, 0x44]), ('last', [0x41, 0x42, 0xFE]), ('mid', [0x61, 0xE9, 0x62, 0x63, 0xA0, 0x64, 0x65, 0x66]),
                     ('all', [0x80, 0x81, 0xFE, 0xFD, 0x90, 0xA5, 0xB6])):
